@@ -5,6 +5,8 @@ import (
 	"flag"
 	"fmt"
 	"os"
+	"strconv"
+	"strings"
 	"time"
 
 	"verifengine/sx"
@@ -46,7 +48,15 @@ func cmdRun(args []string) {
 	solver := fs.String("solver", "", "z3|cvc5")
 	tmo := fs.Int("timeout", 0, "solver timeout ms")
 	prof := fs.Bool("profile", false, "")
+	params := fs.String("params", "", "k=v,k=v harness parameters")
 	fs.Parse(args)
+	sx.Params = map[string]int{}
+	for _, kv := range strings.Split(*params, ",") {
+		if k, v, ok := strings.Cut(kv, "="); ok {
+			n, _ := strconv.Atoi(v)
+			sx.Params[k] = n
+		}
+	}
 	P, err := loadProgram([]string{"./" + *pkg})
 	if err != nil {
 		fmt.Fprintln(os.Stderr, err)
